@@ -245,6 +245,9 @@ func lapackProp(self, other, what string) *property {
 			ce := worksize.RunCallee(def, core.Scope{Patterns: []string{"./lapack/gonum"}, Files: sc.Files})
 			ce.Floor("delegations_compared", 60)
 			res.Merge(ce)
+			co := flagx.RunCholOrder(def, core.Pkgs("./lapack/gonum"))
+			co.Floor("cholesky_solve_pairs", 4)
+			res.Merge(co)
 			us := flagx.RunUnset(def, core.Pkgs("./lapack/gonum"))
 			us.Floor("flag_variable_uses", 3)
 			res.Merge(us)
@@ -788,6 +791,8 @@ func dump(argv []string) {
 		res = initx.RunMaskPair(def, core.Pkgs(argv[1:]...))
 	case "selfguard":
 		res = matargs.RunSelfGuard(def)
+	case "cholorder":
+		res = flagx.RunCholOrder(def, core.Pkgs(argv[1:]...))
 	case "betascale":
 		res = flagx.RunBetaScale(def, core.Pkgs(argv[1:]...))
 	case "guardop":
